@@ -533,6 +533,12 @@ pub fn c18(tier: Tier) -> i32 {
             .reduce(Acc::new, Acc::merge);
         acc = Acc::merge(acc, part);
     }
+    {
+        // long exports (5..100 purchases, four row orders, a comment / cancel row at every position)
+        let part = long_exports(&ctx, "C18");
+        acc = Acc::merge(acc, part);
+        ctx.require(acc.get("converter:long-exports") > 1000, "no long export was converted");
+    }
     crate::cli::c18_cli(&mut ctx, &mut acc);
     for key in ["shape:cancel-sell", "shape:rsu", "shape:line-break-in-description", "shape:withholding-without-same-day-dividend", "chunk-cuts"] {
         ctx.require(acc.get(key) > 0, &format!("no export exhibited {key}"));
@@ -547,6 +553,101 @@ pub fn c18(tier: Tier) -> i32 {
 
 /// C15: the converter as an entry point — every multiset of at most k rows of the C18 row alphabet, in every row order,
 /// with and without an awards file: `convert` must return (a result or an error), never panic.
+/// Long exports (the bound iterated here is the number of rows): n one-per-day Buy rows in four row orders, with one
+/// row that becomes a comment (Stock Split, unknown action), a Cancel Sell + its Sell, or nothing extra, inserted at
+/// every position. `prop` = "C15": the conversion must not panic; "C18": it must also yield exactly the n BUY lines in
+/// chronological order, whatever the row order.
+pub fn long_exports(ctx: &Ctx, prop: &str) -> Acc {
+    let sizes: [usize; 12] = [5, 12, 19, 20, 21, 22, 24, 32, 33, 40, 64, 100];
+    let start = alpha::date(2022, 1, 3);
+    let mut cells: Vec<(usize, usize, usize, usize)> = vec![]; // (n, order, special, position)
+    for &n in &sizes {
+        for order in 0..4 {
+            for special in 0..4 {
+                if special == 0 {
+                    cells.push((n, order, special, 0));
+                } else {
+                    for pos in 0..=n {
+                        cells.push((n, order, special, pos));
+                    }
+                }
+            }
+        }
+    }
+    cells
+        .par_iter()
+        .fold(Acc::new, |mut acc, &(n, order, special, pos)| {
+            let mut rows: Vec<Value> = (0..n)
+                .map(|i| {
+                    let d = start + CDuration::days(i as i64);
+                    json!({"Date": us(d), "Action": "Buy", "Symbol": "X", "Description": "BUY X", "Quantity": format!("{}", 1 + i % 7), "Price": format!("${}.25", 100 + i), "Fees & Comm": "$0.10", "Amount": ""})
+                })
+                .collect();
+            match order {
+                0 => rows.reverse(), // newest first, as Schwab exports are
+                1 => {}              // oldest first
+                2 => {
+                    // zigzag: newest, oldest, second newest, second oldest, ...
+                    let mut z = vec![];
+                    let (mut a, mut b) = (0usize, n);
+                    while a < b {
+                        b -= 1;
+                        z.push(rows[b].clone());
+                        if a < b {
+                            z.push(rows[a].clone());
+                            a += 1;
+                        }
+                    }
+                    rows = z;
+                }
+                _ => rows.rotate_left(n / 2),
+            }
+            let mid = start + CDuration::days((n / 2) as i64);
+            let extra: Vec<Value> = match special {
+                1 => vec![json!({"Date": us(mid), "Action": "Stock Split", "Symbol": "X", "Description": "SPLIT", "Quantity": "10", "Price": "", "Fees & Comm": "", "Amount": ""})],
+                2 => vec![json!({"Date": us(mid), "Action": "Security Transfer", "Symbol": "X", "Description": "moved", "Quantity": "", "Price": "", "Fees & Comm": "", "Amount": ""})],
+                3 => vec![
+                    json!({"Date": us(mid), "Action": "Cancel Sell", "Symbol": "X", "Description": "CXL", "Quantity": "1", "Price": "$150", "Fees & Comm": "", "Amount": ""}),
+                    json!({"Date": us(mid), "Action": "Sell", "Symbol": "X", "Description": "SELL X", "Quantity": "1", "Price": "$150", "Fees & Comm": "", "Amount": ""}),
+                ],
+                _ => vec![],
+            };
+            for (k, e) in extra.into_iter().enumerate() {
+                rows.insert((pos + k).min(rows.len()), e);
+            }
+            let export = json!({"BrokerageTransactions": rows});
+            let input = SchwabInput { transactions_json: export.to_string(), awards_json: None };
+            acc.states += 1;
+            acc.validated += 1;
+            acc.bump("converter:long-exports");
+            let order_name = ["newest first", "oldest first", "zigzag", "rotated"][order];
+            let extra_name = ["none", "Stock Split", "unknown action", "Cancel Sell + Sell"][special];
+            let cx = json!({"profile": "long-exports", "rows": n, "row_order": order_name, "extra_row": extra_name, "position": pos});
+            match catch_unwind(AssertUnwindSafe(|| SchwabConverter::new().convert(&input))) {
+                Err(p) => acc.violation(&ctx.findings, prop, Violation { clause: "panic".into(), input: Input::Json(export), detail: format!("SchwabConverter::convert panicked: {}", panic_msg(p)), context: cx }),
+                Ok(Err(e)) => acc.violation(&ctx.findings, prop, Violation { clause: if prop == "C15" { "panic".into() } else { "trades-differ".into() }, input: Input::Json(export), detail: format!("a well-formed export of {n} purchases is refused: {e}"), context: cx }),
+                Ok(Ok(o)) => {
+                    if prop == "C18" {
+                        match cgt_core::parser::parse_file(&o.cgt_content) {
+                            Err(e) => acc.violation(&ctx.findings, prop, Violation { clause: "output-does-not-parse".into(), input: Input::Json(export), detail: e.to_string(), context: cx }),
+                            Ok(txs) => {
+                                let dates: Vec<NaiveDate> = txs.iter().map(|t| t.date).collect();
+                                let buys = txs.iter().filter(|t| matches!(t.operation, cgt_core::Operation::Buy { .. })).count();
+                                if buys != n || txs.len() != n {
+                                    acc.violation(&ctx.findings, prop, Violation { clause: "trades-differ".into(), input: Input::Json(export), detail: format!("{n} Buy rows (and a cancelled sale) gave {} transactions, {buys} of them BUY", txs.len()), context: cx });
+                                } else if dates.windows(2).any(|w| w[0] > w[1]) {
+                                    acc.violation(&ctx.findings, prop, Violation { clause: "output-not-chronological".into(), input: Input::Json(export), detail: "dates of the output lines are not ascending".into(), context: cx });
+                                }
+                            }
+                        }
+                    }
+                }
+            }
+            acc
+        })
+        .reduce(Acc::new, Acc::merge)
+}
+
 pub fn c15_row_sequences(ctx: &Ctx, k: usize) -> Acc {
     let alphabet = row_alphabet();
     let n = alphabet.len();
